@@ -222,10 +222,44 @@ func vNewEnv(kind int, hasField bool) *vEnv {
 }
 
 // vDAG: commits 0..n-1; parents of commit i>0 are 1 or 2 earlier commits (solver-chosen)
+// vFixedParents parses a DAG given by the runner: "-|0|1|2|0|4" lists the parents of commits 0..n-1
+// ("-" none, "1,2" two parents)
+func vFixedParents(spec string) [][]int {
+	var out [][]int
+	cur := []int{}
+	num, has := 0, false
+	flush := func() {
+		if has {
+			cur = append(cur, num)
+		}
+		num, has = 0, false
+	}
+	for i := 0; i < len(spec); i++ {
+		switch ch := spec[i]; {
+		case ch >= '0' && ch <= '9':
+			num, has = num*10+int(ch-'0'), true
+		case ch == ',':
+			flush()
+		case ch == '|':
+			flush()
+			out = append(out, cur)
+			cur = []int{}
+		}
+	}
+	flush()
+	return append(out, cur)
+}
+
 func (e *vEnv) vDAG(n int, delIdx int) {
+	var fixed [][]int
+	if spec := vConfStr("dag"); spec != "" {
+		fixed = vFixedParents(spec)
+	}
 	for i := 0; i < n; i++ {
 		c := &vCommit{}
-		if i > 0 {
+		if fixed != nil {
+			c.parents = fixed[i]
+		} else if i > 0 {
 			p := vChoose("parent", i)
 			// nobody writes on top of a delete: deleted documents reject local updates
 			vAssume(!e.commits[p].del)
@@ -438,6 +472,18 @@ func (e *vEnv) vHashOrder() {
 		rest[i] = i
 	}
 	e.perm = make([]int, n)
+	if vConfStr("orders") == "two" {
+		// larger histories: only the identity and the reversed hash order (every pair of commits is seen in
+		// both relative orders)
+		rev := vChoose("hashorder", 2) == 1
+		for i := 0; i < n; i++ {
+			e.perm[i] = i + 1
+			if rev {
+				e.perm[i] = n - i
+			}
+		}
+		return
+	}
 	for r := 0; r < n; r++ {
 		k := vChoose("hashorder", len(rest))
 		e.perm[rest[k]] = r + 1
